@@ -8,6 +8,7 @@
 // escaped exception (terminate handler) or timeout is the result.
 #include "hcommon.h"
 #include <csignal>
+#include <ctime>
 #include <exception>
 #include <sstream>
 #include <unistd.h>
@@ -47,6 +48,16 @@ static an<rime::ConfigItem> make_kind(const std::string& kind) {
   if (kind == "map1") { auto m = rime::New<rime::ConfigMap>(); m->Set("a", rime::New<rime::ConfigValue>("1")); return m; }
   if (kind == "listmap") { auto l = rime::New<rime::ConfigList>(); l->Append(rime::New<rime::ConfigMap>()); return l; }
   return nullptr;
+}
+
+// Session::Activate / Service::CleanupStaleSessions read the wall clock through time(): supplied here so that a script can
+// let sessions go stale (`advance <seconds>`); real time plus the offset
+static time_t g_time_offset = 0;
+extern "C" time_t time(time_t* t) {
+  struct timespec ts; clock_gettime(CLOCK_REALTIME, &ts);
+  time_t v = ts.tv_sec + g_time_offset;
+  if (t) *t = v;
+  return v;
 }
 
 // the same table-driven translator as the session harness (so synthetic schemas work here too)
@@ -115,6 +126,7 @@ int main(int argc, char** argv) {
     else if (w == "destroy") { size_t k; is >> k; if (k < sessions.size()) api->destroy_session(sessions[k]); }
     else if (w == "find") { api->find_session(cur); }
     else if (w == "cleanup") { api->cleanup_stale_sessions(); }
+    else if (w == "advance") { long sec; is >> sec; g_time_offset += sec; }     // the wall clock the service reads moves on
     else if (w == "schema") { std::string id; is >> id; api->select_schema(cur, id.c_str()); }
     else if (w == "key") { long long code, mask; is >> code >> mask; api->process_key(cur, (int)code, (int)mask); }
     else if (w == "select") { unsigned long long i; is >> i; api->select_candidate(cur, (size_t)i); }
